@@ -23,7 +23,13 @@ def run(check):
     check.run_rule('C07.R1', lambda c: rule_fallback_discipline(c, 'C07.R1'))
     check.run_rule('C07.R1b', lambda c: rule_containment(c, 'C07.R1'))
     check.run_rule('C07.R1c', lambda c: rule_chain_order(c, 'C07.R6'))
+    from ..rules_escape import rule_nested_retrieval_contained
+    check.run_rule('C07.R1d', lambda c: rule_nested_retrieval_contained(c, 'C07.R1'))
     check.run_rule('C07.R2', lambda c: rule_source_handling(c, 'C07.R2'))
     check.run_rule('C07.R3', lambda c: rule_recursion_guard(c, 'C07.R3'))
     check.run_rule('C07.R4', lambda c: rule_probe_discipline(c, 'C07.R4'))
     check.run_rule('C07.R5', lambda c: rule_sphinx(c, 'C07.R5'))
+    from ..rules_escape import rule_sphinx_unchanged_pair
+    from ..rules_visitor import rule_scope_chain_lookups
+    check.run_rule('C07.R7', lambda c: rule_scope_chain_lookups(c, 'C07.R7'))
+    check.run_rule('C07.R5b', lambda c: rule_sphinx_unchanged_pair(c, 'C07.R5'))
